@@ -12,7 +12,8 @@ RAXES = {2: ["0", "1"], 3: ["0", "2", "02"], 4: ["3", "03"]}
 GRAY = ("g8", "g8s", "g16", "g16s")
 TUS = {"A_G": (("fh", "hk"), ("PT_A", "HALF_G")), "A_M": (("fh",), ("PT_A", "HALF_M")), "B": (("cu", "no"), ("PT_B",)),
        "D_G": (("cn",), ("PT_D", "HALF_G")), "D_M": (("cn",), ("PT_D", "HALF_M")), "E_G": (("ns",), ("PT_E", "HALF_G")), "E_M": (("ns",), ("PT_E", "HALF_M")),
-       "C": (("sa", "sr", "st", "sv"), ("PT_C",))}
+       "C": (("sa", "sr", "st", "sv"), ("PT_C",)), "F": (("mk", "kc"), ("PT_F",))}
+MKSEL = {"g8s": ["all"], "g16": ["all"], "d2_8": ["all", "10"], "rgb8": ["all", "20", "1"]}
 
 def tu_of(op):
     w = op.split(None, 2); k = w[0]
@@ -20,6 +21,7 @@ def tu_of(op):
     if k in ("cu", "no"): return "B"
     if k == "cn": return "D_G" if w[1] in GRAY else "D_M"
     if k == "ns": return "E_G" if w[1] in GRAY else "E_M"
+    if k in ("mk", "kc"): return "F"
     return "C"
 
 def pixels(r, ch, n, style):
@@ -111,6 +113,47 @@ def gen_ops(ctx):
         init = " ".join(str(r.below(4)) for _ in range(pre))
         def pl(vt): return " ".join(map(str, pixels(r, "u16" if vt == "g16" else "u8", n, r.choice(["small", "edge", "rand"]))))
         ops.append("sv %s %s %d %d %d | %s | %s | %s" % (vt1, vt2, w, h, pre, init, pl(vt1 if vt1 != "-" else "g8"), pl(vt2)))
+    # query members of the histogram class: min_key / max_key / sorted_keys / nearest_key / equals / key_from_pixel
+    ops.append("mk rgb8 20 2 2 2 | 1 1 0 0 5 5 | 1 2 1 7 | 0 0 0 0 | 3 3 4 9 | 1 2 2 2 | 0 0 0 0 | 3 3 4 5")
+    ops.append("mk g8s all 3 3 1 | -1 0 9 | -4 5 -9 | 5 -4 -9")
+    ops.append("mk d2_8 all 1 2 1 | 1 20 | 2 1 | 3 5 | 1 2 | 5 3")           # min_key (1,5) is not a component-wise bound of (2,3); B = A permuted
+    ops.append("mk g16 all 1 0 0 | 3 | |")
+    for vt in MKSEL:
+        ch, nc = VT[vt]
+        for _ in range(400 if th else 110):
+            sel = r.choice(MKSEL[vt]); k = nsel(vt, sel)
+            w, h = r.range(0, 5), r.range(0, 5); n = w * h
+            bw = r.range(1, 8 if th else 4)
+            style = r.choice(["small", "small", "small", "edge"])
+            pa = [pixels(r, ch, n, style) for _ in range(nc)]
+            mode = r.below(5)
+            if mode <= 1 and n > 0:                      # B = A with its pixels permuted: equal histograms, other insertion order
+                idx = list(range(n))
+                for i in range(n - 1, 0, -1):
+                    j = r.range(0, i); idx[i], idx[j] = idx[j], idx[i]
+                pb = [[pl[i] for i in idx] for pl in pa]
+            elif mode == 2 and n > 1:                    # B = A with one pixel replaced by a copy of another: sub-histogram or changed counts
+                pb = [list(pl) for pl in pa]; i, j = r.range(0, n - 1), r.range(0, n - 1)
+                for pl in pb: pl[i] = pl[j]
+            else:
+                pb = [pixels(r, ch, n, style) for _ in range(nc)]
+            lo = -6 if ch in ("i8", "i16") else 0
+            probes = []
+            for _ in range(r.range(0, 4)):
+                if n > 0 and r.chance(1, 3):             # near an existing key
+                    i = r.range(0, n - 1); px = [pl[i] for pl in pa]
+                    src = px if sel == "all" else [px[int(c)] for c in sel]
+                    probes += [int(v / bw) + r.range(-1, 1) for v in src]
+                else:
+                    probes += [r.range(lo - 2, lo + 16) for _ in range(k)]
+            ops.append("mk %s %s %d %d %d | %s | %s | %s" % (vt, sel, bw, w, h, " ".join(map(str, probes)),
+                       " | ".join(" ".join(map(str, pl)) for pl in pa), " | ".join(" ".join(map(str, pl)) for pl in pb)))
+    EDGE = [0, 1, -1, 255, 256, 257, -128, -129, 32767, 32768, -32768, -32769, 65535, 65536, 2147483647, 2147483648, -2147483648, -2147483649, 4294967296, 4294967297]
+    ops.append("kc -1 300 -32768 | 256 40000 4294967297")
+    for _ in range(300 if th else 80):
+        c = [r.choice([r.range(-32768, 32767), r.choice([-32768, -129, -128, -1, 0, 255, 256, 32767])]) for _ in range(3)]
+        t = [r.choice([r.choice(EDGE), r.range(-(1 << 40), 1 << 40), r.range(-70000, 70000)]) for _ in range(3)]
+        ops.append("kc %d %d %d | %d %d %d" % (c[0], c[1], c[2], t[0], t[1], t[2]))
     for vt in ("g8", "g16"):
         for _ in range(200 if th else 60):
             w, h = r.range(0, 6), r.range(0, 6)
@@ -124,6 +167,8 @@ def nontrivial(op):
     if w[0] in ("cn", "ns"): return int(w[5]) * int(w[6]) > 1
     if w[0] == "sv": return int(w[3]) * int(w[4]) > 1
     if w[0] == "st": return int(w[2]) * int(w[3]) > 1
+    if w[0] == "mk": return int(w[4]) * int(w[5]) > 1
+    if w[0] == "kc": return True
     return False
 
 ASSUME = [
@@ -138,7 +183,7 @@ ASSUME = [
 
 def compile_all(ctx):
     bins, errs = {}, []
-    with concurrent.futures.ThreadPoolExecutor(max_workers=8) as ex:
+    with concurrent.futures.ThreadPoolExecutor(max_workers=9) as ex:
         futs = {d: ex.submit(vlib.compile_harness, ctx, "harness/C19/main.cpp", "C19_" + d, (), (), True, "-O1", TUS[d][1]) for d in TUS}
         for d, f in futs.items():
             b, e = f.result()
